@@ -205,6 +205,17 @@ func c01Edits(e *wire.Envelope, u *c01Universe, structuralOnly bool) []c01Edit {
 			x.Proof = wire.Proof{Present: true, Final: ed25519.Sign(k, wire.SealPayload(*lastBlock(x)))}
 		})
 	}
+	// proofs fabricated from public material only: the last announced key itself, and 64-byte
+	// values that contain it (a 64-byte ed25519 "private key" ends with its public key)
+	add("proof:=last-announced-key-as-secret", func(x *wire.Envelope) {
+		x.Proof = wire.Proof{Present: true, Secret: append([]byte{}, lastBlock(x).Key...)}
+	})
+	add("proof:=32-bytes-then-last-announced-key", func(x *wire.Envelope) {
+		x.Proof = wire.Proof{Present: true, Secret: append(make([]byte, 32), lastBlock(x).Key...)}
+	})
+	add("proof:=last-announced-key-twice", func(x *wire.Envelope) {
+		x.Proof = wire.Proof{Present: true, Secret: append(append([]byte{}, lastBlock(x).Key...), lastBlock(x).Key...)}
+	})
 	add("proof:=empty", func(x *wire.Envelope) { x.Proof = wire.Proof{Present: true} })
 	add("proof:=absent", func(x *wire.Envelope) { x.Proof = wire.Proof{} })
 	add("proof:=empty-secret", func(x *wire.Envelope) { x.Proof = wire.Proof{Present: true, Secret: []byte{}} })
@@ -491,7 +502,7 @@ func init() {
 				}
 				c01ByteLevel(c, toks)
 			}))
-			spaces = append(spaces, c01ForkSpace())
+			spaces = append(spaces, c01ForkSpace(), c01RepeatSpace())
 			return spaces
 		},
 	})
